@@ -1210,27 +1210,8 @@ class Compiler:
                 "except: NAME = None",
                 KEY=ast.Constant(name), NAME=store(name))
 
-        exc = template(
-            "exc_info()[1]", exc_info=Symbol(sys.exc_info), mode="eval"
-        )
-
-        exc_handler = template(
-            "if pos is not None: rcontext.setdefault('__error__', [])."
-            "append(token + (__filename, exc, ))",
-            exc=exc,
-            token=template("__tokens[pos]", pos="__token", mode="eval"),
-            pos="__token"
-        ) + template("raise")
-
         # Wrap visited nodes in try-except error handler.
-        body += [
-            ast.Try(
-                body=nodes,
-                handlers=[ast.ExceptHandler(body=exc_handler)],
-                finalbody=[],
-                orelse=[],
-            )
-        ]
+        body += self._wrap_in_error_handler(nodes)
 
         function_name = "render" if node.name is None else \
                         "render_%s" % mangle(node.name)
@@ -1255,6 +1236,30 @@ class Compiler:
         )
 
         yield function
+
+    def _wrap_in_error_handler(self, nodes):
+        """Record the expression being evaluated when ``nodes`` fail."""
+
+        exc = template(
+            "exc_info()[1]", exc_info=Symbol(sys.exc_info), mode="eval"
+        )
+
+        exc_handler = template(
+            "if pos is not None: rcontext.setdefault('__error__', [])."
+            "append(token + (__filename, exc, ))",
+            exc=exc,
+            token=template("__tokens[pos]", pos="__token", mode="eval"),
+            pos="__token"
+        ) + template("raise")
+
+        return [
+            ast.Try(
+                body=nodes,
+                handlers=[ast.ExceptHandler(body=exc_handler)],
+                finalbody=[],
+                orelse=[],
+            )
+        ]
 
     def visit_Text(self, node):
         yield EmitText(node.value)
@@ -1295,7 +1300,8 @@ class Compiler:
         self._leave_assignment((node.name, ))
 
         error_assignment = template(
-            "econtext[key] = cls(__exc, __tokens[__token][1:3])\n"
+            "econtext[key] = cls(__exc, __tokens[__token][1:3] "
+            "if __token is not None else (None, None))\n"
             "if handler is not None: handler(__exc)",
             cls=ErrorInfo,
             handler=load("on_error_handler"),
@@ -1702,7 +1708,7 @@ class Compiler:
 
         self._slots.add(name)
 
-        orelse = template(
+        orelse = template("__token = None") + template(
             "SLOT(__stream, econtext.copy(), rcontext)",
             SLOT=name)
         test = ast.Compare(
@@ -1764,6 +1770,13 @@ class Compiler:
             self._current_slot.append(slot.name)
 
             body = self.visit_Context(slot)
+
+            # The slot filler is a function of its own: it keeps track
+            # of the expression it evaluates, so that an error is
+            # attributed to that expression (and to this template)
+            # rather than to whatever the macro evaluated last.
+            body = template("__token = None") + \
+                self._wrap_in_error_handler(body or [ast.Pass()])
 
             assert self._current_slot.pop() == slot.name
 
